@@ -380,6 +380,7 @@ theorem intoQmc_eq (g : IsingSampler) (h : g.WF) : intoQmc g = .ok (convertResul
   rw [addEdges_eq _ h.edges2]
   simp only [Res.bind]
   rw [addTransverse_eq _ h.gammaNonneg]
+  set_option linter.unusedSimpArgs false in
   simp only [Res.bind]
   unfold convertResult convertList
   rw [addList_append, addList_append]
